@@ -85,8 +85,23 @@ def run_unit(ctx, unit):
     if err0:
         for k in range(len(err0)):
             cases.append(("stderr-write", k, core.Case(args, data, efail=k)))
-    obs = ctx.drv.run_many([c for _, _, c in cases])
     unit_id = hash(data) & 0xFFFFFFFF
+    # in chunks, so that a fault that makes jawk hang is reported after one confirmation instead of after a watchdog period
+    # for every offset of the unit
+    for c in cases:
+        c[2].watchdog_ms = 8000
+    for at in range(0, len(cases), 48):
+        chunk = cases[at:at + 48]
+        if _judge(ctx, unit, args, data, base, streaming, unit_id, chunk, ctx.drv.run_many([c for _, _, c in chunk])):
+            return
+    st.count("conclusive")
+    st.count("inputs")
+
+
+def _judge(ctx, unit, args, data, base, streaming, unit_id, cases, obs):
+    """True when a violation was reported (the unit is finished)."""
+    st = ctx.stats
+    out0, err0 = base.stdout, base.stderr
     for (kind, k, case), o in zip(cases, obs):
         if o.result in ("timeout", "abort"):
             o, ok = ctx.drv.confirm(case, o)
@@ -102,11 +117,11 @@ def run_unit(ctx, unit):
         st.count("fault_runs")
         if o.result == "panic" or o.result in ("timeout", "abort"):
             bad("fault-" + o.result, "%s %s" % (o.result, o.panicinfo))
-            return
+            return True
         if kind == "benign":
             if o.result != base.result or o.stdout != out0 or o.stderr != err0:
                 bad("benign-disturbance-visible", "Interrupted results / short writes changed the outcome")
-                return
+                return True
             st.count("benign_runs")
             continue
         delivered = (o.r_errored if kind.startswith("read") else o.e_errored if kind == "stderr-write" else o.o_errored)
@@ -119,37 +134,36 @@ def run_unit(ctx, unit):
                 st.count("fault_not_reached")
                 continue
             bad("undelivered-fault-changed-run", "the fault was never delivered yet the run differs from the fault-free run")
-            return
+            return True
         st.count("faults_delivered")
         st.see("nontrivial", (unit_id, kind, k))
         st.see("kinds", kind)
         if o.result != "err":
             bad("fault-swallowed", "result is %s although the %s failed" % (o.result, kind.split("+")[0]))
-            return
+            return True
         if kind.startswith("read"):
             if o.reads_after_error:
                 bad("read-after-error", "%d read calls after the read error" % o.reads_after_error)
-                return
+                return True
             if o.pulled != k:
                 bad("fault-offset", "pulled %d bytes, fault at %d" % (o.pulled, k))
-                return
+                return True
             if streaming:
                 if not out0.startswith(o.stdout):
                     bad("not-a-prefix", "stdout is not a prefix of the fault-free stdout")
-                    return
+                    return True
             st.count("read_faults")
         elif kind.startswith("write"):
             if o.stdout != out0[:k]:
                 bad("write-prefix", "accepted bytes are not the first %d bytes of the fault-free stdout" % k)
-                return
+                return True
             st.count("write_faults")
         else:
             if streaming and not out0.startswith(o.stdout):
                 bad("not-a-prefix", "stdout is not a prefix of the fault-free stdout (stderr fault)")
-                return
+                return True
             st.count("stderr_faults")
-    st.count("conclusive")
-    st.count("inputs")
+    return False
 
 
 def worker(ctx):
